@@ -2,7 +2,6 @@ package agreesim
 
 import (
 	"fmt"
-	"testing/synctest"
 	"time"
 
 	"github.com/algorand/go-algorand/agreement"
@@ -76,11 +75,11 @@ func (s *Sim) runSyncPhase() {
 		if !n.alive {
 			s.log.Add("restart n%d (GST)", n.id)
 			s.restart(n)
-			synctest.Wait()
+			s.quiesce()
 			s.collect()
 		}
 		if n.led.flush() > 0 {
-			synctest.Wait()
+			s.quiesce()
 			s.collect()
 		}
 	}
@@ -144,7 +143,7 @@ func (s *Sim) runSyncPhase() {
 			s.violate("C05", "stuck", "", fmt.Sprintf("no message in flight and no timer pending, round %d uncommitted", st.target))
 			return
 		}
-		synctest.Wait()
+		s.quiesce()
 		s.collect()
 		if m := s.maxPeriod[st.target]; m > st.perMax {
 			st.perMax = m
